@@ -11,9 +11,10 @@ REQUIRED = [P + n for n in [
     "opaque_flag_sound_partial",
 ]] + ["Pixman.Props.C01.unified_correct", "Pixman.Props.C01.componentAlpha_correct"] + [
     "Pixman.Props.C09Flags." + n for n in [
-        "is_opaque_flag", "samples_opaque_flag", "cover_bits_clear", "solid_flag_sound", "bits_flag_sound",
+        "is_opaque_flag", "samples_opaque_flag", "cover_bits_clear", "affine_flag", "solid_flag_sound", "bits_flag_sound",
         "gradient_flag_sound_partial", "promotion_sound", "source_opaque_sound_partial", "mask_opaque_sound_partial",
-        "dest_opaque_sound"]] + ["Pixman.Lemmas.OpacityFlags.computeImageInfo_eq", "Pixman.Lemmas.OpacityFlags.flags_tb"]
+        "dest_opaque_sound"]] + ["Pixman.Lemmas.OpacityFlags.computeImageInfo_eq", "Pixman.Lemmas.OpacityFlags.flags_tb",
+                                              "Pixman.Props.C09Saturate.saturate_opaque_dest_is_dst", "Pixman.Props.C09Saturate.saturate_row_sound"]
 
 RULE = ("groups of 3-6 presentations of one logical request (1-row composites of 1..12 pixels), once per implementation chain: "
         "opaque source as a8r8g8b8 alpha 255 / x8r8g8b8 (junk in x) / x8r8g8b8 repeating / solid; opaque unified mask as "
@@ -37,7 +38,7 @@ ORULE = ("opacity stream: groups of 1-8 composites (1..12 x 1..6 pixels) present
 
 
 def run(ctx):
-    broken = ctx.lean_obligations("Pixman.Props.C09", REQUIRED, extra_modules=["Pixman.Props.C09Flags"])
+    broken = ctx.lean_obligations("Pixman.Props.C09", REQUIRED, extra_modules=["Pixman.Props.C09Flags", "Pixman.Props.C09Saturate"])
     quick = ctx.tier == "quick"
     findings = cc.run_streams(ctx, 1, 15000 if quick else 40000, 16 if quick else 64)
     ctx.cov["rule"] = RULE
@@ -51,15 +52,16 @@ def run(ctx):
     ctx.assumptions += [
         "narrow pipeline, identity transform, nearest filter, request inside the source: presentations x8r8g8b8 / a8r8g8b8 alpha 255 / "
         "solid / repeating; transforms, filters, partly-outside rectangles and r5g6b5 precision classes are not generated here",
-        "table_sound_partial: the SATURATE row (-> OVER_REVERSE / DST / DST) is not proved (factor min(1,(1-da)/sa) lives in the "
-        "float pipeline); all other rows are proved equivalent or are the identity",
+        "table_sound_partial leaves out the SATURATE row (-> OVER_REVERSE / DST / DST); that row is proved separately over Rat with the float "
+        "pipeline's factor model (C09Saturate.saturate_row_sound, cell by cell of the regenerated table; destination alpha in [0,1]; the "
+        "'destination opaque' cell needs a source that is 0 where its alpha is 0). The replacement runs in the 8-bit pipeline, SATURATE in the "
+        "float one: equal as rationals, not bit-identical (pairs not compared)",
         "O3 (Props/C09Flags): proved for the literal compute_image_info model (C14) + analyze_extent (C04) + the regenerated promotion block; "
-        "source/mask_opaque_sound_partial hold for affine transforms only (for projective transforms the library's cover flags are unsound: "
-        "known findings C09-F2*), take 'ID_TRANSFORM bit => no transform' as a hypothesis, and stop at 'every sample lies inside the image' "
-        "(alpha 255 of such samples is C10/C08); gradients: the flag rule only (renderers: C13)",
+        "source/mask_opaque_sound_partial: that the transform is affine follows from the flag (af551b2); remaining hypotheses: 'ID_TRANSFORM bit => "
+        "no transform' (bit 0, checked on every correspondence line) and int32 matrix entries (C type); the conclusion stops at 'every sample lies "
+        "inside the image' (alpha 255 of such samples is C10/C08); gradients: the flag rule only (renderers: C13)",
         "opacity stream: no alpha maps, clip regions, accessors, indexed/gray/YUV formats, separable-convolution filter, dithering, pixbuf special case; "
-        "gradient sources get the decision check and a render-alone oracle only; float-pipeline bilinear rounding (known findings C09-F1*) is matched by "
-        "shape (role, alpha vs alpha-less presentation, float pipeline, bilinear, difference <= 8*2^-24 / 1 LSB)",
+        "gradient sources get the decision check and a render-alone oracle only; SATURATE pairs whose replacement leaves the float pipeline are not compared",
     ]
 
 
